@@ -68,7 +68,7 @@ impl InkList {
 
     // Order between items that have the same value: origin name, then item name.
     // Makes every result that picks or orders items independent of the map's iteration order.
-    fn name_order(a: &InkListItem, b: &InkListItem) -> Ordering {
+    pub(crate) fn name_order(a: &InkListItem, b: &InkListItem) -> Ordering {
         a.get_origin_name()
             .cmp(&b.get_origin_name())
             .then_with(|| a.get_item_name().cmp(b.get_item_name()))
